@@ -647,7 +647,13 @@ impl<T> AutoGrowCircularQueue<T> {
     ///
     /// Returns `ZiporaError::MemoryError` if allocation fails
     pub fn reserve(&mut self, additional: usize) -> Result<()> {
-        let required = self.len + additional;
+        // One slot always stays free: head == tail must mean "empty" (clear, Clone and Debug rely on it,
+        // exactly as push_back does with `len < capacity - 1`)
+        let required = self
+            .len
+            .checked_add(additional)
+            .and_then(|n| n.checked_add(1))
+            .ok_or_else(|| ZiporaError::invalid_data("Capacity overflow"))?;
         if required <= self.capacity {
             return Ok(());
         }
